@@ -33,7 +33,7 @@ def defStep (o : Options α) (longest rightWidth : Int) (full : List (List α)) 
   | _, _ => pure (full ++ combined)
 
 theorem insertDefTableOpts_eq (ed : Editor α) (pos : Int) (defs : List (List α × List α)) (width : Int) (o : Options α) :
-    ed.insertDefTableOpts cx pos defs width o =
+    ed.insertDefTableOptsCore cx pos defs width o =
       (defs.foldlM (defStep cx (o.withDefaults cx)
           (defs.foldl (fun m d => if (gLen cx d.1 : Int) > m then (gLen cx d.1 : Int) else m) (-1))
           (width - (defs.foldl (fun m d => if (gLen cx d.1 : Int) > m then (gLen cx d.1 : Int) else m) (-1) + 2) - 2)) [] >>=
@@ -41,7 +41,7 @@ theorem insertDefTableOpts_eq (ed : Editor α) (pos : Int) (defs : List (List α
          if !full.isEmpty then
            ed.insert cx pos (Block.mk full (o.withDefaults cx).lineSep (!(o.withDefaults cx).noTrailing)).join
          else pure ed) := by
-  unfold Editor.insertDefTableOpts
+  unfold Editor.insertDefTableOptsCore
   simp only []
   congr 2
   funext full item
@@ -93,7 +93,8 @@ theorem editorInsertDefinitionsTableOpts_regenerated (h : Gen.Code.editorInsertD
     Gen.Code.editorInsertDefinitionsTableOpts cx ed pos defs width o = ed.insertDefTableOpts cx pos defs width o := by
   first
     | exact absurd h (by decide)
-    | (rw [insertDefTableOpts_eq]
+    | (unfold Editor.insertDefTableOpts
+       rw [insertDefTableOpts_eq]
        unfold Gen.Code.editorInsertDefinitionsTableOpts
        simp only [optionsWithDefaults_regenerated cx (by decide), wrap_regenerated cx (by decide),
          blockLen_regenerated cx (by decide), blockLine_regenerated cx (by decide), blockSet_regenerated cx (by decide),
@@ -102,6 +103,7 @@ theorem editorInsertDefinitionsTableOpts_regenerated (h : Gen.Code.editorInsertD
          blockJoin_regenerated cx (by decide), editorInsert_regenerated cx (by decide) hwf]
        go_norm
        simp only [ite_pure, pure_bind, map_eq_pure_bind, bind_assoc, bind_pure, repeatStr_two, List.mapM_pure]
+       generalize (if width < 0 then (0 : Int) else width) = width
        -- the longest term
        have hL : ∀ f : Int → List α × List α → Int,
            (∀ m d, f m d = if (gLen cx d.1 : Int) > m then (gLen cx d.1 : Int) else m) →
